@@ -588,6 +588,57 @@ def r14_copy_keeps_the_class(idx, r):
         raise AnchorMissing("Setting.__copy__ / Settings.duplicate")
 
 
+def r15_default_test_and_rename_table(idx, r):
+    """(a) which settings the short and medium write styles leave out is decided by Setting.isDefault, EVALUATED (MiniEval) on every pair of
+    nine values (None, 0, 0.0, False, "", [], [1], 1.5, "a") for value and default: it is true exactly when the value equals the default.
+    Two different falsy values (0.0 against None, [] against None) are different - a setting left out is read back as its default.
+    (b) the table of old setting names is data: an old name that this tree maps to another setting than laws/setting_renames.json (frozen
+    from the tree the rules were confirmed on) silently redirects every old input.  New and expired entries are not findings."""
+    import json, os
+    from ..minieval import MiniEval
+    f = idx.method(SETTING, "isDefault")
+    vals = [None, 0, 0.0, False, "", [], [1], 1.5, "a"]
+    bad = []
+    for v in vals:
+        for d in vals:
+            got, _ = MiniEval().run(f.node, {"self.value": v, "self.default": d, "self._value": v, "self._default": d})
+            if bool(got) != (v == d):
+                bad.append((v, d, got))
+    r.require(not bad, "Setting.isDefault:true-iff-value-equals-default", f,
+              msg=f"(value, default, answer) = {bad[:4]}: an off-default value that is reported as default is dropped by the short/medium write styles and reads back as the default")
+    frozen = json.load(open(os.path.join(os.path.dirname(os.path.dirname(os.path.dirname(os.path.abspath(__file__)))), "laws", "setting_renames.json")))["renames"]
+    now = {}
+    for m in idx.modules.values():
+        if ".tests" in m.name or not m.name.startswith("armi."):
+            continue
+        for c in ast.walk(m.tree):
+            if isinstance(c, ast.Call) and norm(c.func).split(".")[-1].endswith("Setting") and c.args:
+                on = [k for k in c.keywords if k.arg == "oldNames"]
+                if not on or not isinstance(on[0].value, (ast.List, ast.Tuple)):
+                    continue
+                try:
+                    name = idx.fold(m, c.args[0])
+                except Exception:
+                    name = None
+                for t in on[0].value.elts:
+                    if isinstance(t, ast.Tuple) and t.elts and isinstance(t.elts[0], ast.Constant) and isinstance(t.elts[0].value, str):
+                        now.setdefault(t.elts[0].value, []).append((name, m, c))
+    if len(now) < 8:
+        raise AnchorMissing("settings with oldNames")
+    for old, hits in sorted(now.items()):
+        for name, m, c in hits:
+            if old in frozen and name is not None:
+                r.require(name == frozen[old], f"oldName:{old}:renames-the-same-setting", (m.relpath, c.lineno, ""), node=None,
+                          msg=f"the old name `{old}` now belongs to `{name}`; it used to rename `{frozen[old]}`: an input that still says `{old}` sets the wrong setting without any message")
+        targets = {h[0] for h in hits}
+        r.require(len(targets) == 1, f"oldName:{old}:one-target", (hits[0][1].relpath, hits[0][2].lineno, ""), msg=f"the old name `{old}` is claimed by {sorted(map(str, targets))}")
+
+
+def r16_pairing(idx, r):
+    from ..pairing import pairing_rule
+    pairing_rule(idx, r, ["armi.settings"], 80)
+
+
 def run(idx, chk):
     chk.explanation = (
         "C17: schema validation dominating the store in Setting.setValue and the frozen writers of Setting._value; the renamed name being the one "
@@ -619,3 +670,7 @@ def run(idx, chk):
                  necessary="a settings file the system wrote can be read back")
     chk.run_rule("R17.14", "the copy of a setting is an object of the setting's own class (keeps dump/schema overrides)", lambda r: r14_copy_keeps_the_class(idx, r), floor=2,
                  necessary="every value that can be written reads back equal - also from a copied setting")
+    chk.run_rule("R17.15", "isDefault is value == default (evaluated on 81 pairs); an old setting name keeps the setting it renames", lambda r: r15_default_test_and_rename_table(idx, r), floor=10,
+                 necessary="every off-default value is written by every style; an input under an old name sets the setting it always set")
+    chk.run_rule("R17.16", "arguments stand at the parameter they are named after; sibling calls forward the same pass-through parameters", lambda r: r16_pairing(idx, r), floor=1,
+                 necessary="style, path and settings object reach the writer in that order")
